@@ -102,7 +102,16 @@ pub fn run_bisync(
     // like "unchanged here, deleted there" and the new file was removed.
     common.retain(|p, _| a.contains_key(p) || b.contains_key(p));
     let mut conflict_paths: Vec<PathBuf> = Vec::new();
-    for (path, act) in &plan {
+    // Divergent edits are applied last. Their conflict-copy name can itself carry
+    // a planned action (the user deleted an earlier copy of the same loser on one
+    // side); applied afterwards, that delete removed the fresh copy from one
+    // replica only and from the recorded state.
+    let both_changed = |act: &Action| matches!(act, Action::Conflict(ConflictKind::BothChanged));
+    let ordered = plan
+        .iter()
+        .filter(|(_, act)| !both_changed(act))
+        .chain(plan.iter().filter(|(_, act)| both_changed(act)));
+    for (path, act) in ordered {
         apply(
             root_a,
             root_b,
